@@ -76,6 +76,21 @@ func (s *sstr) String() string {
 }
 
 func concatStr(a, b value) value {
+	if isSymStr(a) || isSymStr(b) {
+		if sa, ok := a.(string); ok && sa == "" {
+			return b
+		}
+		if sb, ok := b.(string); ok && sb == "" {
+			return a
+		}
+		if _, ok := a.(*sstr); ok {
+			panic(engineError{"concatenation of a structural string with a symbolic string"})
+		}
+		if _, ok := b.(*sstr); ok {
+			panic(engineError{"concatenation of a structural string with a symbolic string"})
+		}
+		return strBinop(token.ADD, a, b)
+	}
 	x, y := asSstr(a), asSstr(b)
 	return (&sstr{append(append([]spart{}, x.parts...), y.parts...)}).norm()
 }
@@ -436,6 +451,15 @@ func (i *interpreter) formatArg(spec string, verb byte, a value) value {
 			return x
 		}
 		return (&sstr{[]spart{{opq: spec + x.String()}}}).norm()
+	case symstr:
+		if (verb == 's' || verb == 'v') && spec == "%"+string(verb) {
+			return x
+		}
+		if verb == 'q' {
+			// quoting of arbitrary text: opaque but injective enough for messages
+			return strBinop(token.ADD, strBinop(token.ADD, "\"", x), "\"")
+		}
+		panic(engineError{"formatting a symbolic string with " + spec})
 	case bool, int, int8, int16, int32, int64, uint, uint8, uint16, uint32, uint64, uintptr, float32, float64, string:
 		return fmt.Sprintf(spec, x)
 	case []value:
